@@ -41,7 +41,7 @@ OPS = ["window_with_count", "buffer_with_count", "window_with_time", "buffer_wit
 FAM = {"window_with_count": "count", "buffer_with_count": "count", "window_with_time": "time", "buffer_with_time": "time",
        "window_with_time_or_count": "toc", "buffer_with_time_or_count": "toc", "window": "boundary", "buffer": "boundary",
        "window_when": "when", "buffer_when": "when", "window_toggle": "toggle", "buffer_toggle": "toggle"}
-REQUIRED = {"set:ops": len(OPS), "set:clock_param": 4, "set:shapes": 6,
+REQUIRED = {"set:ops": len(OPS), "count_resubscription_cases": {"quick": 400, "thorough": 40000}, "set:clock_param": 4, "set:shapes": 6,
             "ties": {"quick": 100, "thorough": 5000},
             "same_instant_aux_and_element": {"quick": 40, "thorough": 800},
             "windows_checked": {"quick": 3000, "thorough": 250000}}
@@ -716,10 +716,60 @@ def run_case(seed: int, idx: int, res: UnitResult) -> None:
         res.violation("C18:%s:%s" % (op, cats[0]), detail, {"seed": seed, "idx": idx})
 
 
+
+# ------------------------------------------------------------------ count rule on a re-subscribed observable
+# window_with_count / buffer_with_count built ONCE and subscribed twice over a source that yields different data to the
+# second subscription: window k of EACH subscription holds exactly elements k*skip .. k*skip+count-1 of that subscription.
+
+def count_resubscription_case(seed: int, idx: int, res: UnitResult) -> None:
+    import reactivex.operators as ops_
+    from ..single import SUB_AT as T0
+    from ..vlab import Lab as Lab_, gen_timeline as gen_tl
+    r = case_rng(seed, ID, "count-resub", idx)
+    count = r.randint(1, 4)
+    skip = r.choice([None, 1, 2, 3, 4, 5])
+    is_buffer = idx % 2 == 0
+    tl1 = gen_tl(r, "ints", maxlen=7, term="C")
+    tl2 = gen_tl(r, "uniq", maxlen=7, term="C", uniq=[1000])
+    lab = Lab_("num")
+    src = lab.cold("s", tl1, alt_msgs=[tl2])
+    first, second = lab.observer("first"), lab.observer("second")
+    holder: dict = {}
+    op = (ops_.buffer_with_count if is_buffer else ops_.window_with_count)(count, skip)
+
+    def sub1() -> None:
+        holder["o"] = src.pipe(op)
+        first.subscribe_to(holder["o"])
+    t2 = T0 + max(m[0] for m in tl1) + 35.0
+    lab.at(T0, sub1)
+    lab.at(t2, lambda: second.subscribe_to(holder["o"]))
+    lab.run()
+    sk = skip if skip is not None else count
+    name = "buffer_with_count" if is_buffer else "window_with_count"
+    res.count("count_resubscription_cases")
+    for which, obs, tl in (("first", first, tl1), ("second", second, tl2)):
+        xs = [v for (t, k, v) in tl if k == "N"]
+        exp = [xs[i:i + count] for i in range(0, len(xs), sk)]
+        exp = [e for e in exp if e]
+        if is_buffer:
+            got = [list(v) for v in obs.values]
+        else:
+            got = [c.values for c in obs.children if c.values]
+        if got != exp or not obs.kinds.endswith("C"):
+            res.violation("C18:%s:count-rule:%s-subscription" % (name, which),
+                          {"count": count, "skip": skip, "elements": xs, "expected": exp, "observed": got, "outer_kinds": obs.kinds},
+                          {"seed": seed, "idx": idx, "family": "count-resub"})
+            break
+
 def run_unit(unit: dict, res: UnitResult) -> None:
     for idx in range(unit["lo"], unit["hi"]):
         run_case(unit["seed"], idx, res)
+        if idx % 8 == 0:
+            count_resubscription_case(unit["seed"], idx, res)
 
 
 def replay(rep: dict, res: UnitResult) -> None:
+    if rep.get("family") == "count-resub":
+        count_resubscription_case(rep["seed"], rep["idx"], res)
+        return
     run_case(rep["seed"], rep["idx"], res)
